@@ -63,7 +63,7 @@ def run(tier, out):
         "self_test": st,
     }
     cloudcommon.design(PID, tier, out, cov)
-    cloudcommon.part(PID, tier, out, cov)
+    cloudcommon.part(PID, tier, out, cov, extra={"bootstrap and self-dial runs": tp + ".cloud"})
     return out.finish("model_checking", cov, assumptions=[
         "default settings (announcement interval 90 s); dial instructions are configured peers (retried until they answer)",
         "NAT = the mock socket's address filter (passes a sender only after the natted node has sent to it within 300 s)"])
